@@ -563,7 +563,8 @@ def run_c28(res, tier, rng, binary):
     root = os.path.join(vlib.scratch(), "root_C28")
     year_now = time.gmtime().tm_year
     PATHS = [1, 22, 255, 300, 526, 40000]
-    NAMES = [1, 31, 32, 255, 256, 300]
+    NAMES = [1, 7, 16, 31, 32]              # DSVToBytes / DSVFromBytes alone: only names a bucket can have (<= 32 bytes since fix d4ba77a)
+    NAMES_TG = [1, 7, 16, 31, 32, 300]      # through Create + WriteCSM: names longer than the header's 32 bytes are rejected at creation
     COUNTS = [1, 2, 255, 256]
     # ---- DSVToBytes / DSVFromBytes alone, all classes x all element types
     dsv_cases, _ = tlc(res, "C28", "DSV", "Codec_c28_dsv.cfg", ["DSV_RoundTrip", "DSV_DevExplains", "EmitDSV"],
@@ -573,16 +574,16 @@ def run_c28(res, tier, rng, binary):
     if quick:
         t2 = sorted(rng.sample(ALLT, 2))
         big = [rng.choice(ALLT)]
-        runs = [("Codec_c28_a.cfg", dict(Types=sorted(set(t2) | set(big)), BigTypes=big, PathLens=PATHS, NameLens=NAMES, ColCounts=COUNTS, MaxCmds=1)),
-                ("Codec_c28_b.cfg", dict(Types=big, BigTypes=big, PathLens=[rng.choice([22, 255, 300, 526])], NameLens=[1, 32, 300], ColCounts=[2, 256],
+        runs = [("Codec_c28_a.cfg", dict(Types=sorted(set(t2) | set(big)), BigTypes=big, PathLens=PATHS, NameLens=NAMES_TG, ColCounts=COUNTS, MaxCmds=1)),
+                ("Codec_c28_b.cfg", dict(Types=big, BigTypes=big, PathLens=[rng.choice([22, 255, 300, 526])], NameLens=[1, 31, 32, 300], ColCounts=[2, 256],
                                          MaxCmds=3, TwoBuckets=True, BigPayload=0))]
     else:
         big = sorted(rng.sample(ALLT, 3))
         one = rng.choice(ALLT)
-        runs = [("Codec_c28_a.cfg", dict(Types=ALLT, BigTypes=big, PathLens=PATHS, NameLens=NAMES, ColCounts=COUNTS, MaxCmds=1)),
-                ("Codec_c28_b.cfg", dict(Types=sorted(set(rng.sample(ALLT, 3)) | {big[0]}), BigTypes=big[:1], PathLens=[22, 255, 526], NameLens=NAMES,
+        runs = [("Codec_c28_a.cfg", dict(Types=ALLT, BigTypes=big, PathLens=PATHS, NameLens=NAMES_TG, ColCounts=COUNTS, MaxCmds=1)),
+                ("Codec_c28_b.cfg", dict(Types=sorted(set(rng.sample(ALLT, 3)) | {big[0]}), BigTypes=big[:1], PathLens=[22, 255, 526], NameLens=NAMES_TG,
                                          ColCounts=COUNTS, MaxCmds=3, TwoBuckets=True, BigPayload=0)),
-                ("Codec_c28_c.cfg", dict(Types=[one], BigTypes=[one], PathLens=[22, 300], NameLens=[31, 300], ColCounts=[1, 2], MaxCmds=3,
+                ("Codec_c28_c.cfg", dict(Types=[one], BigTypes=[one], PathLens=[22, 300], NameLens=[31, 32, 300], ColCounts=[1, 2], MaxCmds=3,
                                          TwoBuckets=True, BigPayload=40000))]
     tg_cases = []
     ovf = None
@@ -757,7 +758,7 @@ def run_c28(res, tier, rng, binary):
             if d.startswith("root_C28"):
                 shutil.rmtree(os.path.join(os.path.dirname(root), d), ignore_errors=True)
     res.cov.update(stats)
-    if stats["write_rejected"] > len(cases) // 4:
+    if stats["write_rejected"] > (2 * len(cases)) // 5:
         raise Undecided("%d of %d writes were rejected: the concretisation does not produce acceptable writes" % (stats["write_rejected"], len(cases)))
     res.assumptions += ["index and offset of a written command are taken from io.TimeToIndex / io.IndexToOffset on the bucket as catalogued",
                         "rows of variable-length commands sit exactly at the interval start (interval ticks 0)",
